@@ -6,6 +6,7 @@ import (
 	"context"
 	"errors"
 	"fmt"
+	"io"
 	"slices"
 
 	"github.com/Masterminds/semver/v3"
@@ -53,6 +54,10 @@ func (h Handler) Tx(server gen.KV_TxServer) error {
 			if err = h.handleTxCursor(cursor, tx, server); err == nil {
 				continue
 			}
+		}
+		if errors.Is(err, io.EOF) {
+			// the client has closed its side of the stream: the regular end of a transaction
+			err = nil
 		}
 		return errors.Join(err, tx.cleanup())
 	}
